@@ -34,15 +34,20 @@ CLAIMED = {
         note="Deterministic conservation 'within solver tolerance' is a runtime fact of odeint, judged at 1e-6 relative. "
              "Theorems closed under the global context."),
     "C12": dict(
-        technique="Coq proof (permutation invariance, event splitting, explicit-ODE route, birth-by-origin) over the regenerated "
-                  "tables + correspondence on the event lists pygom holds after each API route",
-        text="C12_perm / C12_split_event / C12_explicit_route / C12_birth_origin hold for all models over any commutative ring. "
+        technique="Coq proof (permutation invariance, event splitting, explicit-ODE route, birth-by-origin; route normal form "
+                  "route_sound over a table obtained by running the current source of the constructors / add_* methods / list "
+                  "setters on symbolic processes) over the regenerated tables + correspondence on the event lists pygom holds "
+                  "after each API route and of the source interpreter with the running code",
+        text="C12_perm / C12_split_event / C12_explicit_route / C12_birth_origin hold for all models over any commutative ring; "
+             "C12_routes_table / C12_routes: every (route, process kind) row of Gen/RoutesGen.v stores one event whose rate and "
+             "per-state contribution are, for every instantiation of the symbols, those of the process described. "
              "Per run: the same random process set is entered through Event objects, legacy lists, per-process mixes and "
              "incremental add_* in random orders and declaration styles; the normalised event lists are read back and must be "
              "equal as multisets; Coq (Qc) evaluates both read-backs under the extracted tables and compares with pygom's ODEs.",
         ref="DESIGN.md section 4 C12",
-        note="Route normalisation code (add_transition, add_event, add_birth_death, Event/Transition constructors, declaration "
-             "splitting) is tied by correspondence, not translated. Theorems closed under the global context."),
+        note="Route normalisation code (add_transition, add_event, add_birth_death, add_ode, list setters, Event/Transition "
+             "constructors) is translated by running it in gen/minipy.py (trusted subset interpreter, itself compared with the "
+             "running code on every run); declaration splitting is tied by correspondence. Theorems closed under the global context."),
     "C04": dict(
         technique="Coq proof by induction over an arbitrary oracle schedule of the jump-loop model (firstReaction, tauLeap with "
                   "first-reaction fallback, _checkJump, _updateStateWithJump, _newJumpTimes) instantiated with kernel "
@@ -70,9 +75,11 @@ CLAIMED = {
     "C09": dict(
         technique="Coq refinement proof (ordered-dict model of the parameters setter -> name->value map, induction over "
                   "all assignment histories) + source fact translator + vm_compute correspondence on random histories",
-        text="Theorems C09_bind / C09_reject_unchanged / C09_unknown_rejected / C09_wrong_length_rejected hold for every "
-             "declared list and every history of list/pairs/dict assignments (accepted or rejected); the alias fact of "
-             "the dict branch is regenerated from the source each run and the executable model is compared op-by-op with "
+        text="Theorems C09_bind / C09_reject_unchanged / C09_unknown_rejected / C09_wrong_length_rejected / "
+             "C09_wrong_shape_rejected hold for every declared list and every history of list/pairs/dict assignments (accepted "
+             "or rejected); C09_commit_atomic: names that are model symbols but not parameters (t, states) are refused without "
+             "effect because the extracted commit order is atomic; the alias fact of the dict branch and the commit order are "
+             "regenerated from the source each run and the executable model (trace_f) is compared op-by-op with "
              "the real setter on random mixed-format histories.",
         ref="DESIGN.md section 4 C09",
         note="Modelled: the parameters setter, _extractParamSymbol, get_param_index. Not modelled: stochastic (rv_frozen / "
